@@ -160,6 +160,9 @@ func checkMetricKeys(conf Config, schema base.LogSchema, orchestrationKeys []str
 		if slices.Index(orchestrationKeys, key) != -1 {
 			return fmt.Errorf("metricKeys[%d]: field '%s' cannot be listed in both .metricKeys and .orchestration/keys", i, key)
 		}
+		if err := base.CheckMetricKeyName(key); err != nil {
+			return fmt.Errorf("metricKeys[%d]: %w", i, err)
+		}
 	}
 	return nil
 }
